@@ -119,12 +119,21 @@ type HarnessResult struct {
 	Events   map[string]int
 	Samples  []string
 	MaxDepth int
+	SampleInputs []SampleInput
 }
 
 type AssertAgg struct {
-	Proved, Trivial, Violated, Unknown int
-	Models                            []map[string]uint64
-	Details                           []string
+	Proved, Trivial, Violated, Unknown, KnownN int
+	Models                                    []map[string]uint64
+	Details                                   []string
+	Cex                                       []Cex
+	Known                                     map[string]int
+	KnownCex                                  map[string][]Cex
+}
+
+type SampleInput struct {
+	Prefix []int
+	Inputs map[string]uint64
 }
 
 type workItem struct{ prefix []int }
@@ -185,6 +194,9 @@ func (w *World) RunHarness(pkg, fn string, opts *RunOpts, pool *SolverPool, work
 				inflight--
 				if res != nil {
 					hr.Paths++
+					if os.Getenv("SYMGO_DEBUG") != "" {
+						fmt.Fprintf(os.Stderr, "path %d end=%s steps=%d prefix=%v queue=%d nq=%d t=%v %s\n", hr.Paths, res.End, res.Steps, it.prefix, len(queue), solver.NQ, solver.Time, res.Unsup)
+					}
 					hr.Steps += res.Steps
 					hr.EndCounts[res.End]++
 					if res.End == "unsupported" {
@@ -206,8 +218,22 @@ func (w *World) RunHarness(pkg, fn string, opts *RunOpts, pool *SolverPool, work
 							if len(ag.Models) < 5 {
 								ag.Models = append(ag.Models, a.Model)
 								ag.Details = append(ag.Details, a.Detail)
+								ag.Cex = append(ag.Cex, Cex{Model: a.Model, Prefix: a.Prefix, Detail: a.Detail})
 							}
 						default:
+							if strings.HasPrefix(a.Status, "known:") {
+								kid := strings.TrimPrefix(a.Status, "known:")
+								ag.KnownN++
+								if ag.Known == nil {
+									ag.Known = map[string]int{}
+									ag.KnownCex = map[string][]Cex{}
+								}
+								ag.Known[kid]++
+								if len(ag.KnownCex[kid]) < 3 {
+									ag.KnownCex[kid] = append(ag.KnownCex[kid], Cex{Model: a.Model, Prefix: a.Prefix, Detail: a.Detail})
+								}
+								break
+							}
 							ag.Unknown++
 							if len(ag.Details) < 5 {
 								ag.Details = append(ag.Details, a.Detail)
@@ -225,6 +251,9 @@ func (w *World) RunHarness(pkg, fn string, opts *RunOpts, pool *SolverPool, work
 					}
 					if len(hr.Samples) < 3 && res.End == "return" {
 						hr.Samples = append(hr.Samples, fmt.Sprintf("decisions=%v", res.Prefix))
+					}
+					if len(hr.SampleInputs) < 2 && res.End == "return" && res.Inputs != nil {
+						hr.SampleInputs = append(hr.SampleInputs, SampleInput{Prefix: res.Prefix, Inputs: res.Inputs})
 					}
 					for _, np := range res.NewPref {
 						queue = append(queue, workItem{np})
